@@ -113,13 +113,20 @@ ListProj(v) == {[id |-> i, state |-> v[i].state, claim |-> v[i].claim, epic |-> 
 Between(a, b) == IF IsPrefix(a, b) THEN {SubSeq(b, 1, n) : n \in Len(a)..Len(b)} ELSE {a, b}
 Passed(snaps) == UNION {Between(snaps[k], snaps[k + 1]) : k \in 1..(Len(snaps) - 1)}
                  \cup {snaps[k] : k \in 1..Len(snaps)}
+\* `show --json <epic>`: the epic and its children
+ShowProj(v, e) == IF e \notin DOMAIN v THEN {}
+                  ELSE {[id |-> i, state |-> v[i].state, claim |-> v[i].claim, epic |-> v[i].epic, title |-> v[i].title] :
+                          i \in {e} \cup P!VChildren(v, e)}
 C13_reader(h) ==
   \A k \in 1..Len(h.readers) :
      LET r == h.readers[k] IN
        \* (a writer killed mid-line is C03's business unless the reader was in flight: see D18)
        /\ r.exit = 0
        /\ \E l \in Passed(r.snaps) :
-             Replay(l).err = "" /\ ListProj(View(Replay(l))) = {r.items[j] : j \in 1..Len(r.items)}
+             /\ Replay(l).err = ""
+             /\ IF r.kind = "show"
+                  THEN ShowProj(View(Replay(l)), r.rid) = {r.items[j] : j \in 1..Len(r.items)}
+                  ELSE ListProj(View(Replay(l))) = {r.items[j] : j \in 1..Len(r.items)}
 
 (***************************************************************************)
 (* C03 / C04 - process death.  h.after = the continuation: a sequence of   *)
